@@ -102,9 +102,17 @@ pub fn gen_ttl_value(rng: &mut Rng) -> u64 {
 
 /// L family: one client in lock-step with quiescent barriers; TTL-centred (C03, C04, C05).
 pub fn gen_ttl_family(prop: &str, seed: u64, faulty: bool) -> Plan {
+    gen_ttl_family_c(prop, seed, faulty, false)
+}
+
+/// `conditional`: add insert_if_present operations and (often) a vetoing UpdateValidator (C09).
+pub fn gen_ttl_family_c(prop: &str, seed: u64, faulty: bool, conditional: bool) -> Plan {
     let mut rng = Rng::new(seed ^ 0x77_11);
     let flavor = pick_flavor(&mut rng);
-    let cfg = roomy_cfg(&mut rng, flavor);
+    let mut cfg = roomy_cfg(&mut rng, flavor);
+    if conditional && rng.chance(6, 10) {
+        cfg.validator = Validator::Mod { m: rng.range(2, 3), r: rng.below(2) };
+    }
     let sim = sim_plan(&mut rng, faulty);
     let n_keys = rng.range(2, 8) as usize;
     let universe = gen_universe(&mut rng, n_keys);
@@ -118,6 +126,16 @@ pub fn gen_ttl_family(prop: &str, seed: u64, faulty: bool) -> Plan {
     let steps = rng.range(5, 28);
     let mut writes = 0usize;
     for _ in 0..steps {
+        if conditional && rng.chance(22, 100) {
+            let k = *rng.pick(&universe);
+            ops.push(Op::InsertIfPresent { k, cost: rng.range(1, 5) as i64, size: rng.range(1, 9) as u32 });
+            writes += 1;
+            ops.push(Op::Barrier);
+            if rng.chance(1, 2) {
+                ops.push(probe(&mut rng, k));
+            }
+            continue;
+        }
         match rng.below(100) {
             0..=34 => {
                 let k = *rng.pick(&universe);
@@ -213,7 +231,6 @@ pub fn gen_ttl_family(prop: &str, seed: u64, faulty: bool) -> Plan {
         ops.push(Op::Get { k: *k, hold: 0 });
     }
     ops.push(Op::Len);
-    let mut cfg = cfg;
     cfg.buffer_size = cfg.buffer_size.max(writes + 8);
     let mut tags = vec!["lockstep".to_string(), "under_capacity".to_string()];
     if !faulty {
@@ -535,10 +552,149 @@ pub fn gen_p_family(prop: &str, seed: u64, pf: &PProfile) -> Plan {
     Plan { prop: prop.into(), family: "P".into(), seed, cfg, sim, clients, chaos, finale, universe, tags }
 }
 
+/// C19: a lock-step script with a quiescent barrier after every operation, run on both flavours.
+pub fn gen_diff(seed: u64, variant: u64) -> Plan {
+    let mut p = match variant % 3 {
+        0 => gen_ttl_family_c("C19", seed, false, true),
+        1 => gen_p_family("C19", seed, &PProfile { clients: (1, 1), faulty_pct: 0, chaos_clear_pct: 0, inline_clear_pct: 6, collide_pct: 15, validator_pct: 25, coster_pct: 40, metrics_on: true, over_capacity_pct: 70, wait_pct: 5, ops: (6, 30), ..PProfile::default() }),
+        _ => gen_ttl_family("C19", seed, false),
+    };
+    p.prop = "C19".into();
+    p.family = format!("L-diff/{}", p.family);
+    let mut ops = Vec::new();
+    for o in p.clients[0].iter() {
+        if matches!(o, Op::Barrier) {
+            continue;
+        }
+        ops.push(o.clone());
+        ops.push(Op::Barrier);
+    }
+    p.clients = vec![ops];
+    p.sim.stalls.clear();
+    p.sim.eager_clock_permille = 0;
+    p.cfg.buffer_size = p.cfg.buffer_size.max(64);
+    p.tags.push("differential".into());
+    p
+}
+
+/// C18(b): the exact-map lock-step family on real key types with the library's key builders.
+pub fn gen_c18_typed(seed: u64) -> Plan {
+    let mut rng = Rng::new(seed ^ 0x7e9d);
+    let ty = *rng.pick(&["i8", "i16", "i32", "i64", "isize", "u8", "u16", "u32", "u64", "usize", "string", "string", "i32", "i64"]);
+    let mut p = gen_ttl_family("C18", seed, false);
+    let (bits, signed) = match ty {
+        "i8" => (8, true),
+        "i16" => (16, true),
+        "i32" => (32, true),
+        "i64" | "isize" => (64, true),
+        "u8" => (8, false),
+        "u16" => (16, false),
+        "u32" => (32, false),
+        _ => (64, false),
+    };
+    let pool: Vec<u64> = if ty == "string" {
+        (1..=24).collect()
+    } else if signed {
+        let min: i64 = if bits == 64 { i64::MIN } else { -(1i64 << (bits - 1)) };
+        let max: i64 = if bits == 64 { i64::MAX } else { (1i64 << (bits - 1)) - 1 };
+        [min, min + 1, -3, -2, -1, 0, 1, 2, 3, max - 1, max, max / 2, min / 2].iter().map(|v| *v as u64).collect()
+    } else {
+        let max: u64 = if bits == 64 { u64::MAX } else { (1u64 << bits) - 1 };
+        vec![0, 1, 2, 3, max - 1, max, max / 2, max / 2 + 1, 255.min(max), 256.min(max)]
+    };
+    // remap the plan's keys onto the type's pool
+    let old = p.universe.clone();
+    let mut new_u: Vec<u64> = Vec::new();
+    for _ in 0..old.len() {
+        loop {
+            let k = *rng.pick(&pool);
+            if !new_u.contains(&k) {
+                new_u.push(k);
+                break;
+            }
+        }
+    }
+    let map = |k: u64| -> u64 { new_u[old.iter().position(|x| *x == k).unwrap_or(0)] };
+    for op in p.clients[0].iter_mut() {
+        match op {
+            Op::Insert { k, .. } | Op::InsertIfPresent { k, .. } | Op::Remove { k } | Op::Get { k, .. } | Op::GetMut { k, .. } | Op::GetTtl { k } => *k = map(*k),
+            _ => {}
+        }
+    }
+    p.universe = new_u;
+    p.cfg.keys = KeyMode::Typed { ty: ty.to_string() };
+    p.family = format!("L-typed/{}", ty);
+    p.tags.push("typed".into());
+    p
+}
+
+/// C18(a): lock-step script over keys forced to share index hashes.
+pub fn gen_c18_lockstep(seed: u64) -> Plan {
+    let mut rng = Rng::new(seed ^ 0xc18);
+    let flavor = pick_flavor(&mut rng);
+    let mut cfg = roomy_cfg(&mut rng, flavor);
+    let faulty = rng.chance(1, 4);
+    let sim = sim_plan(&mut rng, faulty);
+    let m = rng.range(1, 3);
+    cfg.keys = KeyMode::Collide { m };
+    let n_keys = rng.range(2, 6) as usize;
+    let mut universe: Vec<u64> = Vec::new();
+    while universe.len() < n_keys {
+        let k = rng.range(1, 12);
+        if !universe.contains(&k) {
+            universe.push(k);
+        }
+    }
+    let mut ops = Vec::new();
+    let steps = rng.range(6, 30);
+    let mut writes = 0;
+    for _ in 0..steps {
+        let k = *rng.pick(&universe);
+        match rng.below(100) {
+            0..=34 => {
+                ops.push(Op::Insert { k, cost: rng.range(1, 5) as i64, ttl_ns: 0, size: rng.range(1, 9) as u32 });
+                ops.push(Op::Barrier);
+                writes += 1;
+            }
+            35..=46 => {
+                ops.push(Op::Remove { k });
+                ops.push(Op::Barrier);
+                writes += 1;
+            }
+            47..=54 => {
+                ops.push(Op::InsertIfPresent { k, cost: rng.range(1, 5) as i64, size: rng.range(1, 9) as u32 });
+                ops.push(Op::Barrier);
+                writes += 1;
+            }
+            55..=60 => {
+                ops.push(Op::GetMut { k, write: true, size: rng.range(1, 9) as u32, hold: 0 });
+                ops.push(Op::Barrier);
+            }
+            61..=70 => {
+                for k in &universe {
+                    ops.push(Op::Get { k: *k, hold: 0 });
+                }
+            }
+            _ => ops.push(probe(&mut rng, k)),
+        }
+    }
+    ops.push(Op::Barrier);
+    for k in &universe {
+        ops.push(Op::Get { k: *k, hold: 0 });
+    }
+    cfg.buffer_size = cfg.buffer_size.max(writes + 8);
+    Plan { prop: "C18".into(), family: "L-collide".into(), seed, cfg, sim, clients: vec![ops], chaos: vec![], finale: Finale::None, universe, tags: vec!["lockstep".into(), "under_capacity".into(), "collide".into()] }
+}
+
 pub fn gen_plan(prop: &str, seed: u64, variant: u64) -> Plan {
     match prop {
         "C03" | "C04" => gen_ttl_family(prop, seed, variant % 4 == 3),
         "C05" => gen_ttl_family(prop, seed, variant % 2 == 1),
+        "C09" => gen_ttl_family_c(prop, seed, variant % 5 == 4, true),
+        "C19" => gen_diff(seed, variant),
+        "C16" => gen_p_family(prop, seed, &PProfile { clients: (1, 2), coster_pct: 60, over_capacity_pct: 50, barrier_every: (1, 3), collide_pct: 0, faulty_pct: 20, ttl_pct: 15, if_present_pct: 15, ops: (6, 30), ..PProfile::default() }),
+        "C18" if variant % 3 == 0 => gen_c18_lockstep(seed),
+        "C18" if variant % 3 == 1 => gen_c18_typed(seed),
         "C01" | "C02" | "C06" | "C07" | "C08" | "C10" | "C11" | "C12" | "C13" | "C15" | "C17" | "C18" | "C20" => gen_p_family(prop, seed, &profile_for(prop)),
         _ => gen_ttl_family(prop, seed, false),
     }
@@ -546,7 +702,23 @@ pub fn gen_plan(prop: &str, seed: u64, variant: u64) -> Plan {
 
 pub fn nontrivial_rule(prop: &str) -> &'static str {
     match prop {
-        "C03" | "C04" | "C05" => "seeded swarm over lock-step TTL scripts (keys, TTLs, clock placements around second boundaries and deadlines, cleanup interval, scheduler mode); a run is non-trivial if a TTL deadline was crossed and observed, a TTL entry was re-inserted (with or without TTL), or a resident TTL entry was updated; distinct = distinct event-log hash among non-trivial runs",
+        "C03" | "C04" | "C05" => "seeded swarm over lock-step TTL scripts (keys, TTLs, clock placements around second boundaries and deadlines, cleanup interval, scheduler mode; C05 alternates fault-free and faulty configurations); a run is non-trivial if a TTL deadline was crossed and observed, a TTL entry was re-inserted (with or without TTL), or a resident TTL entry was updated; distinct = distinct event-log hash among non-trivial runs",
+        "C01" => "P family, mostly over capacity with update_max_cost chaos; non-trivial = at least one admission of a new key was observed under the policy lock; distinct = distinct event-log hash",
+        "C02" => "P family, few keys, unique values, removes/clears/get_mut writes, collisions in a third of runs; non-trivial = at least one lookup returned a value; distinct = distinct event-log hash",
+        "C06" => "P family with evictions, expiry and chaos clear; non-trivial = a quiescent checkpoint with a non-empty store was compared with the policy; distinct = distinct event-log hash",
+        "C07" => "P family, always over capacity, skewed lookups feeding the sketch; non-trivial = at least one admission needed an eviction round (room < 0); distinct = distinct event-log hash",
+        "C08" => "P family; non-trivial = at least one accepted value was tracked in the ledger to the final quiescent point; distinct = distinct event-log hash",
+        "C09" => "lock-step TTL scripts with insert_if_present and a vetoing validator in 60% of runs; non-trivial = an insert_if_present or a veto was exercised (or a deadline crossed); distinct = distinct event-log hash",
+        "C10" => "P family with wait(), chaos clear()/close() at random scheduling offsets, buffer sizes 1-4 in half of the runs; non-trivial = a wait() returned Ok and the barrier was checked against the processor's activity; distinct = distinct event-log hash",
+        "C11" => "P family with clear() from a chaos task at a random scheduling offset (70%) or inline; non-trivial = a clear() returned and the next quiescent state was examined; distinct = distinct event-log hash",
+        "C12" => "P family with 1-3 chaos close() calls, close or drop-all finale; non-trivial = a close() returned Ok (post-close behaviour checked) or all handles were dropped; distinct = distinct event-log hash",
+        "C13" => "P family dominated by lookups, num_counters 1-70 and a few large; non-trivial = recordings reached the estimator before a checkpoint compared it with the reference TinyLFU; distinct = distinct event-log hash",
+        "C15" => "P family dominated by lookups, buffer_items 0-64, stalled policy worker; non-trivial = lookups were flushed and accounted at a quiescent checkpoint; distinct = distinct event-log hash",
+        "C16" => "1-2 clients, explicit and Coster-valued costs, both internal-cost settings, evictions; non-trivial = the charge of a resident entry was compared with cost + overhead; distinct = distinct event-log hash",
+        "C17" => "P family with metrics on, inline clear at barriers; non-trivial = the conservation equations were evaluated at a quiescent checkpoint; distinct = distinct event-log hash",
+        "C18" => "thirds: lock-step scripts over keys forced to share an index (collision key builder), the exact-map family on every integer key type and on String/&str with the library's own key builders, P family with collisions; non-trivial = an operation hit an index held by a colliding key, or a typed-key script ran; distinct = distinct event-log hash",
+        "C19" => "the same lock-step plan (barrier after every operation) executed on Cache and on AsyncCache in one child; non-trivial = more than two operations were compared result by result; distinct = distinct event-log hash of the pair",
+        "C20" => "swarm over builder parameters (num_counters 0-70 and large, max_cost negative/0/1/small, buffer_size 0-8, buffer_items 0-64, cleanup 1 ms-5 s) followed by a P workload and a final insert+wait+get+remove probe; every run counts as non-trivial (the configuration is the case); distinct = distinct event-log hash",
         _ => "seeded swarm; distinct = distinct event-log hash among runs that exercised the property's mechanism",
     }
 }
